@@ -63,6 +63,7 @@ fn op_to_str(o: &e3_hist::Op) -> String {
         e3_hist::Op::Install(t, k) => format!("I:{t:?}:{k:?}"),
         e3_hist::Op::Drop => "D".into(),
         e3_hist::Op::Panic => "P".into(),
+        e3_hist::Op::Refuse(k) => format!("R{k}"),
     }
 }
 
@@ -140,7 +141,8 @@ fn encode_result(r: &e3_hist::HistResult) -> Vec<u8> {
 }
 
 pub fn main_hist(a: &Args) -> i32 {
-    let alpha = e3_hist::alphabet(a.fs, a.small);
+    let refusals = a.extra.iter().any(|x| x == "--refusals") && crate::envx::MOUNTED;
+    let alpha = e3_hist::alphabet_r(a.fs, a.small, refusals);
     let w = World::init(a.fs);
     let opts = e3_hist::Opts { with_fs: a.fs, full_text_snapshot: a.text, flush_oracle: a.flush };
     // the histories of this shard
@@ -148,7 +150,7 @@ pub fn main_hist(a: &Args) -> i32 {
     if let Some(f) = &a.replay {
         let txt = std::fs::read_to_string(f).expect("replay file");
         let v: Value = vkit::serde_json::from_str(&txt).expect("replay json");
-        let full = e3_hist::alphabet(true, false);
+        let full = e3_hist::alphabet_r(true, false, true);
         let h: Vec<e3_hist::Op> = v["case"]["history"]
             .as_array()
             .expect("history")
